@@ -179,6 +179,8 @@ SHELLS = {
     "H": [("S", [1.25, 0.5], [[0.25, 0.75]]), ("SP", [2.5, 0.125], [[0.5, -0.25], [1.5, 2.0]])],
     "He": [("p", [3.0], [[1.0]])],
     "Li": [("S", [4.0, 1.0, 0.25], [[0.5, 0.25, 1.0], [0.125, 2.0, -1.0]]), ("D", [0.75], [[1.0]])],
+    # one shell per letter of the spectroscopic sequence s p d f g h i k (j is skipped)
+    "Ne": [("F", [1.5], [[1.0]]), ("g", [1.25], [[1.0]]), ("H", [0.5], [[1.0]]), ("I", [0.25], [[1.0]]), ("K", [0.125], [[1.0]])],
 }
 ANG = {"s": 0, "p": 1, "d": 2, "f": 3, "g": 4, "h": 5, "i": 6, "k": 7}
 
@@ -204,7 +206,10 @@ def fmt_num(x, style):
     return _NUMSTR[(float(x), style)]
 
 
-def nwchem_text(pre_lines, gap, lead, style, elements=("H", "He", "Li"), comments=True, blank_between=False):
+ALL_ELEMENTS = ("H", "He", "Li", "Ne")
+
+
+def nwchem_text(pre_lines, gap, lead, style, elements=ALL_ELEMENTS, comments=True, blank_between=False):
     lines = list(pre_lines)
     for el in elements:
         for letters, exps, cols in SHELLS[el]:
@@ -219,7 +224,7 @@ def nwchem_text(pre_lines, gap, lead, style, elements=("H", "He", "Li"), comment
     return "\n".join(lines) + "\n"
 
 
-def expected_nwchem(elements=("H", "He", "Li")):
+def expected_nwchem(elements=ALL_ELEMENTS):
     out = {}
     for el in elements:
         lst = []
@@ -233,7 +238,7 @@ def expected_nwchem(elements=("H", "He", "Li")):
     return out
 
 
-def gbs_text(pre_lines, gap, lead, style, elements=("H", "He", "Li")):
+def gbs_text(pre_lines, gap, lead, style, elements=ALL_ELEMENTS):
     lines = list(pre_lines)
     for el in elements:
         lines.append(" " * lead + el + " " * gap + "0")
@@ -252,7 +257,7 @@ def gbs_text(pre_lines, gap, lead, style, elements=("H", "He", "Li")):
     return "\n".join(lines) + "\n"
 
 
-def expected_gbs(elements=("H", "He", "Li")):
+def expected_gbs(elements=ALL_ELEMENTS):
     out = {}
     for el in elements:
         lst = []
@@ -415,7 +420,7 @@ def main(tier="quick", seed=0, only=None):
         "regex": "grammar of well-formed lines stated in coverage.regex.grammar; z3 string length <= 40",
         "crosshair": "skeleton files with symbolic layout: number of lines before the first element 0..2, each blank or a comment; "
                      "gap widths 1..3; element symbol and shell letters chosen by symbolic indices; per-condition timeout in coverage.crosshair",
-        "skeletons": "three elements, five shell blocks (generalized, SP, lower-case letter), plain / E / D numbers, six kinds of text before the "
+        "skeletons": "four elements, ten shell blocks (generalized, SP, lower-case letters, every letter s..k), plain / E / D numbers, six kinds of text before the "
                      "first element x gap / indentation variants, for both formats",
         "pyscf": "fake Mole with symbolic exponents / coefficients (5 shells over 3 atoms with a repeated element)",
         "outside": "tabs as separators, three-letter element symbols, numbers without a decimal point, lower-case exponent markers (not part of the stated formats); "
